@@ -1,6 +1,6 @@
 (* C08 -- Every lane of n-dimensional data is interpolated independently. *)
 From Coq Require Import List Bool Arith ZArith QArith Qcanon.
-From NI Require Import Num Base Lookup Linear Interp Spline Tri TriProofs LookupProofs SplineProofs Lanes.
+From NI Require Import Num Base Lookup Linear Interp Spline Tri TriProofs SplineAlgebra LookupProofs LinearProofs SplineProofs Lanes SplineIndividual.
 Import ListNotations.
 Local Open Scope nat_scope.
 
@@ -45,8 +45,40 @@ Theorem C08_spline_build_lanewise :
 Proof. exact spline_solve_lanewise. Qed.
 Print Assumptions C08_spline_build_lanewise.
 
+(* Individual boundaries: lane j of the n-d interpolator is determined by lane j's own data, lane j's
+   own boundary pair and the axis -- [sys_rows xs data j l r], [yq data j], [aq/bq xs data j] mention no
+   other lane; the slopes are the UNIQUE solution of that system *)
+Theorem C08_spline_individual_lanewise :
+  forall (xs : list Qc) (data : list (list Qc)) (L : nat),
+    (forall i, i < length data -> length (nth i data []) = L) ->
+    StrictIncQc xs -> length xs = length data -> 3 <= length data ->
+    (Z.of_nat (length data) <= two64)%Z -> 0 < L ->
+    forall (per_lane : list (rowbc Qc)) (shape : list nat) (ext : bool) (trail : list nat)
+           (sp : spline_strat) (j : nat) (rb : rowbc Qc),
+      j < L -> nth_error per_lane j = Some rb ->
+      spline_build NumQc (BIndividual per_lane shape) ext xs data trail = Ok sp ->
+      let l := fst (lane_lr rb) in let r := snd (lane_lr rb) in
+      exists kq : list Qc,
+        (forall k, sat 0%Qc (sys_rows xs data j l r) k <-> k = kq) /\
+        forall x, (ext = false -> in_closed_range NumQc 0%Qc xs x = true) ->
+          exists i v, lower_index NumQc xs x = Ok i /\ i + 1 < length data /\
+            spline_interp NumQc sp xs data x = Ok v /\ length v = L /\
+            nth j v 0%Qc =
+              piece (yq data j i) (kk kq i) (aq xs data j kq i) (bq xs data j kq i) (hq xs i)
+                    (x - nth i xs 0)%Qc.
+Proof. exact spline_individual_correct. Qed.
+Print Assumptions C08_spline_individual_lanewise.
+
+(* the system of lane j of the n-d data IS the system of the 1-lane data set made of lane j *)
+Theorem C08_lane_system_is_single_lane_system :
+  forall (xs : list Qc) (data : list (list Qc)) (L : nat),
+    (forall i, i < length data -> length (nth i data []) = L) ->
+    length xs = length data -> 3 <= length data -> 0 < L ->
+    forall j l r, j < L -> sys_rows xs (col j data) 0 l r = sys_rows xs data j l r.
+Proof. exact sys_rows_col. Qed.
+Print Assumptions C08_lane_system_is_single_lane_system.
+
 (* Stated exception, part of the property: WHETHER build succeeds depends on all lanes (Periodic
-   end equality, boundary array shape) -- C10.  Partial: the per-lane dispatch of Individual
-   boundaries (lane idx gets bounds[0, idx]) and Bilinear are carried by the correspondence
-   (n-d interpolator against interpolators built lane by lane, bitwise at f64, exact at
-   rationals; other lanes perturbed incl. NaN). *)
+   end equality, boundary array shape) -- C10.  Partial: Bilinear lanes are carried by the
+   correspondence (n-d interpolator against interpolators built lane by lane, bitwise at f64,
+   exact at rationals; other lanes perturbed incl. NaN). *)
